@@ -522,3 +522,19 @@ def verify_replay(modname, path):
     p = subprocess.run([sys.executable, os.path.join(ROOT, "check"), modname, "--replay", path,
                         "--quiet"], capture_output=True, text=True, env=env, timeout=600)
     return p.returncode == 1 and "VIOLATION" in p.stdout
+
+
+# --------------------------------------------------------------- determinism self-test
+def run_digests(modname, tier, base_seed, runs, workers):
+    """per-seed event-log digests of a small batch (used by selftest/determinism.sh)"""
+    mod = _load(modname)
+    seeds = [base_seed * SEED_MULT + i for i in range(runs)]
+    chunk = max(1, runs // (workers * 2) or 1)
+    chunks = [seeds[i:i + chunk] for i in range(0, len(seeds), chunk)]
+    out = {}
+    ctx = mp.get_context("fork")
+    with ProcessPoolExecutor(max_workers=workers, mp_context=ctx) as ex:
+        for recs in ex.map(_worker, [modname] * len(chunks), [tier] * len(chunks), chunks, [set()] * len(chunks)):
+            for r in recs:
+                out[r["seed"]] = [r.get("digest"), r.get("nviol"), bool(r.get("harness"))]
+    return out
